@@ -13,7 +13,7 @@ DEFAULT_KNOBS = dict(
     max_objects=5, max_interfaces=2, max_unions=2, max_enums=2, max_inputs=3, max_custom_scalars=2,
     max_fields=5, max_args=3, mutation_pct=35, subscription_pct=0, default_impl_pct=30,
     wrap_depth=3, arg_pct=45, root_default_impl=False, lag_pct=0, rename_roots_pct=0, subscription_default_impl_pct=0,
-    covariant_pct=20,
+    covariant_pct=20, sub_in_union_pct=40,
 )
 
 
@@ -228,6 +228,13 @@ def gen_schema(tape, knobs=None, stream="schema"):
                     s.types[n] = td
                 setattr(s, attr, new)
         s.explicit_schema_def = True
+    ut = tape.sub(stream + ".subunion")
+    unions = [td for td in s.types.values() if td.kind == "UNION"]
+    if s.subscription and unions and ut.chance(k["sub_in_union_pct"]):
+        # the subscription root type is also a member of a union (fragments on that union may appear at the root)
+        u = unions[ut.draw(len(unions))]
+        if s.subscription not in u.members:
+            u.members.append(s.subscription)
     if k["lag_pct"]:
         # a pass-through directive whose hooks suspend: puts scheduler points inside argument,
         # input-object and variable coercion (where the engine gathers)
